@@ -42,7 +42,7 @@ def gen_cfg(rng, prop, tier):
     cfg = struct.gen_cfg(rng, "C02", tier, allow_big=False)
     cfg["prop"] = "C14"
     menu = rng.choice((("HNode",), ("HAny",), ("HNode", "HAny", "HMix"), ("HLight",), ("HLightDict",),
-                       ("HNodeBag",), ("HNodeNo",), ("HLightNo", "HLight"), ("HNodeEq",)))
+                       ("HNodeBag",), ("HNodeNo",), ("HLightNo", "HLight"), ("HNodeEq",), ("PNode",), ("PAny",), ("PNode", "PAny")))
     cfg["menu"] = list(menu)
     cfg["family"] = FAMILY[menu[0]]
     cfg["classes"] = [rng.choice(menu) for _ in cfg["classes"]]
